@@ -139,6 +139,11 @@ Theorem C08_simpson_product_grid : forall x1 x2 f g, length f = length x1 -> len
   (simpson2 opsR x1 x2 (outer opsR f g) = simpson opsR x1 f * simpson opsR x2 g)%R.
 Proof. exact simpson_product_grid. Qed.
 Print Assumptions C08_simpson_product_grid.
+Theorem C08_simpson_exact_cubic_equal_spacing : forall a b c d x0 h, (h <> 0)%R ->
+  (simp3 opsR x0 (x0 + h) (x0 + 2 * h) (P3 a b c d x0) (P3 a b c d (x0 + h)) (P3 a b c d (x0 + 2 * h))
+   = F3 a b c d (x0 + 2 * h) - F3 a b c d x0)%R.
+Proof. exact simp3_exact_cubic_equal_spacing. Qed.
+Print Assumptions C08_simpson_exact_cubic_equal_spacing.
 Example C08_simpson_example :
   simpson opsQ [0; 1; 3; 4]%Q [1; 2; 10; 17]%Q == (76 # 3)%Q /\ simpson opsQ [0; 1; 3]%Q [1; 2; 10]%Q == 12%Q.
 Proof. split; vm_compute; reflexivity. Qed.
